@@ -159,6 +159,7 @@ type Stream struct {
 	pos      int
 	reads    int
 	dead     bool // early EOF fired
+	broken   bool // EIO fired: the device stays failed
 	zeros    int
 }
 
@@ -681,11 +682,15 @@ func (p *Proc) stdinRead(b []byte) (int, error) {
 	if f != nil {
 		switch f.Kind {
 		case FStdinEIO:
-			rec.Result = "EIO"
-			return 0, pathErr("read", "/dev/stdin", syscall.EIO)
+			// a failed device stays failed: every later read fails too
+			s.broken = true
 		case FStdinEOF:
 			s.dead = true
 		}
+	}
+	if s.broken {
+		rec.Result = "EIO"
+		return 0, pathErr("read", "/dev/stdin", syscall.EIO)
 	}
 	if s.dead {
 		rec.Result = "EOF(early)"
